@@ -90,6 +90,8 @@ def expr(node, cx, env):
             b = expr(base, cx, env)
         except py2v.Untranslatable:
             raise py2v.Untranslatable("attribute %s" % d)
+        if node.attr == "shape":
+            return "(vshape %s)" % b
         return '(vattr %s "%s")' % (b, node.attr)
     if isinstance(node, ast.UnaryOp):
         x = expr(node.operand, cx, env)
@@ -106,7 +108,7 @@ def expr(node, cx, env):
         if isinstance(node.op, ast.Pow):
             base = py2v.ev(node, {k: v for k, v in cx.consts.items()})
             return q_lit(base)
-        op = {ast.Add: "vadd", ast.Sub: "vsub", ast.Mult: "vmul", ast.Div: "vdiv"}.get(type(node.op))
+        op = {ast.Add: "vadd", ast.Sub: "vsub_b", ast.Mult: "vmul", ast.Div: "vdiv"}.get(type(node.op))
         if op is None:
             raise py2v.Untranslatable("binary op")
         return "(%s %s %s)" % (op, a, b)
@@ -163,6 +165,8 @@ def expr(node, cx, env):
                 return "(vidx2 %s %d %d)" % (base, i.value, j.value)
             if isinstance(i, ast.Slice) and i.lower is None and i.upper is None and i.step is None and isinstance(j, ast.Constant) and isinstance(j.value, int) and j.value >= 0:
                 return "(vcol %s %d)" % (base, j.value)
+            if isinstance(j, ast.Slice) and j.lower is None and j.upper is None and j.step is None and isinstance(i, ast.Constant) and isinstance(i.value, int) and i.value >= 0:
+                return "(vidx %s %d)" % (base, i.value)
             if (isinstance(i, ast.Slice) and i.lower is None and i.upper is None and i.step is None and isinstance(j, ast.UnaryOp)
                     and isinstance(j.op, ast.USub) and isinstance(j.operand, ast.Constant) and j.operand.value == 1):
                 return "(vcol_last %s)" % base
@@ -236,6 +240,11 @@ def bind_targets(target, value_term, cx, env):
                 nm = ident(el.id)
                 binds.append((nm, "(vidx %s %d)" % (t, i)))
                 env[el.id] = nm
+            elif isinstance(el, (ast.Tuple, ast.List)) and all(isinstance(e2, ast.Name) for e2 in el.elts):
+                for k2, e2 in enumerate(el.elts):
+                    nm = ident(e2.id)
+                    binds.append((nm, "(vidx (vidx %s %d) %d)" % (t, i, k2)))
+                    env[e2.id] = nm
             else:
                 raise py2v.Untranslatable("nested unpacking")
         return binds, env
@@ -266,6 +275,9 @@ def stmts(body, cx, env, depth=0):
         for nm, term in reversed(binds):
             inner = "let %s := %s in\n%s" % (nm, term, inner)
         return inner
+    if isinstance(st, ast.AugAssign) and isinstance(st.target, ast.Name):
+        binop = ast.BinOp(left=ast.Name(id=st.target.id, ctx=ast.Load()), op=st.op, right=st.value)
+        return stmts([ast.Assign(targets=[ast.Name(id=st.target.id, ctx=ast.Store())], value=binop)] + rest, cx, env, depth)
     if isinstance(st, ast.If):
         test = expr(st.test, cx, env)
         a = stmts(list(st.body) + rest, cx, env, depth + 1)
@@ -335,6 +347,13 @@ PLAN = [
      "oracles": {"make_same_degree": 2, "locate_point": 2, "specialize_curve": 3, "vector_close": 2,
                  "convex_hull_collide": 2, "full_newton": 4},
      "emits": ["add_intersection"], "classes": ["Linearization"]},
+    # algebraic strategy: implicitization (degree 1, 2 explicit; degree 3 through the oracle _evaluate3 = a 6x6 determinant),
+    # the interpolation formulas (the sampled function is an oracle), Bernstein -> power basis
+    {"src": "hazmat/algebraic_intersection.py", "out": "PyFnAlgebraic.v",
+     "fns": ["evaluate", "_to_power_basis11", "_to_power_basis12", "_to_power_basis13", "_to_power_basis_degree4", "poly_to_power_basis",
+             "to_power_basis"],
+     "imports": [], "oracles": {"_evaluate3": 3, "eval_intersection_polynomial": 3, "_to_power_basis23": 2, "_to_power_basis_degree8": 2,
+                                "_to_power_basis33": 2}, "emits": [], "classes": []},
 ]
 
 
